@@ -5,6 +5,7 @@ CONSTANTS
   MaxSelect = 2
   GcBefore = 0
   Concurrent = FALSE
+  WithCheckpoint = TRUE
   OrderedPush = FALSE
   AsBuilt = {}
 VIEW View
